@@ -130,6 +130,10 @@ func runC12(c *Ctx) {
 		runC12faulty(c)
 		return
 	}
+	if c.G.Chance(14) {
+		runC12stacked(c)
+		return
+	}
 	g := c.G
 	r := c.R
 	w := &c12{c: c, ackedIDs: map[int]bool{}}
@@ -838,4 +842,172 @@ func runC12faulty(c *Ctx) {
 	c.Describe("member=faulty-device size=%d ticks<=%d ops=%s faults=%v policy=%s", size, tickBudget, strings.Join(desc, " "), sink.Fired, r.Policy)
 	c.MixState(uint64(len(sink.Data))<<16 | uint64(len(stream)))
 	c.Nontrivial = len(sink.Fired) > 0
+}
+
+// runC12stacked: one buffered syncer on top of another (two cores with their
+// own buffering policy over one shared, buffered file). The upper one's sink
+// is the lower syncer: whatever it flushes is accepted by the lower one at
+// that moment, behind everything the lower one accepted before. One task
+// writes lines to the upper and - like a second core sharing it - to the
+// lower syncer, with Syncs of either. At the device: every line whole and at
+// most once; lines of one source in their order; a line written through the
+// upper syncer never ahead of a line the lower one had accepted before that
+// write was issued; after a Sync of the upper syncer (flush into the lower
+// one, then its Sync) or after stopping both, every line issued so far.
+func runC12stacked(c *Ctx) {
+	g, r := c.G, c.R
+	sink := zsim.NewSimSink(r, "dev", 1+g.Draw(2), uint64(g.Draw(1<<16))+1)
+	r.Label(unsafe.Pointer(sink), "dev")
+	clk := zsim.NewSimClock(r, drawEpoch(g))
+	var lowSize, upSize int
+	switch g.Draw(4) {
+	case 0: // both at the default
+	case 1:
+		lowSize, upSize = pick(g, 64, 128, 512), pick(g, 16, 32, 64)
+	case 2:
+		lowSize = pick(g, 32, 64)
+		upSize = lowSize
+	default:
+		lowSize, upSize = pick(g, 16, 32), pick(g, 64, 128)
+	}
+	lower := &zapcore.BufferedWriteSyncer{WS: sink, Size: lowSize, FlushInterval: time.Hour}
+	lower.Clock = clk.For(unsafe.Pointer(lower), unsafe.Sizeof(*lower))
+	upper := &zapcore.BufferedWriteSyncer{WS: lower, Size: upSize, FlushInterval: time.Hour}
+	upper.Clock = clk.For(unsafe.Pointer(upper), unsafe.Sizeof(*upper))
+	type sop struct {
+		kind byte // 'U' write to upper, 'L' write to lower, 'u' Sync upper, 'l' Sync lower
+		n    int
+	}
+	var ops []sop
+	for i, n := 0, 3+g.Draw(12); i < n; i++ {
+		switch g.Weighted(5, 4, 2, 1) {
+		case 0:
+			ops = append(ops, sop{'U', 4 + g.Draw(40)})
+		case 1:
+			ops = append(ops, sop{'L', 4 + g.Draw(40)})
+		case 2:
+			ops = append(ops, sop{'u', 0})
+		default:
+			ops = append(ops, sop{'l', 0})
+		}
+	}
+	c.Describe("member=stacked lower-size=%d upper-size=%d ops=%v", lowSize, upSize, ops)
+	c.Nontrivial = true
+	c.R.Probe("a buffered syncer on top of another buffered syncer")
+	type line struct {
+		idx   int
+		upper bool
+	}
+	issued := map[string]line{}
+	var order []string
+	// judge parses what the device holds; all: every issued line must be there
+	judge := func(when string, all bool) bool {
+		data := sink.Data
+		seen := map[string]bool{}
+		var lastU, lastL = -1, -1
+		var got []line
+		for len(data) > 0 {
+			nl := bytes.IndexByte(data, '\n')
+			if nl < 0 {
+				if all {
+					c.Fail("C12: stacked syncers: the device holds a torn line after everything was flushed", "%s: device ends in %q", when, clip(data))
+					return false
+				}
+				break
+			}
+			l := string(data[:nl+1])
+			data = data[nl+1:]
+			ln, ok := issued[l]
+			if !ok || seen[l] {
+				c.Fail("C12: stacked syncers: the device holds a line that was not written, or holds one twice", "%s: line %q (issued=%v, seen before=%v); device %q", when, clip([]byte(l)), ok, seen[l], clip(sink.Data))
+				return false
+			}
+			seen[l] = true
+			if ln.upper {
+				if ln.idx < lastU {
+					c.Fail("C12: stacked syncers: lines of one source reached the device out of order", "%s: upper line #%d after #%d", when, ln.idx, lastU)
+					return false
+				}
+				lastU = ln.idx
+			} else {
+				if ln.idx < lastL {
+					c.Fail("C12: stacked syncers: lines of one source reached the device out of order", "%s: lower line #%d after #%d", when, ln.idx, lastL)
+					return false
+				}
+				lastL = ln.idx
+			}
+			got = append(got, ln)
+		}
+		// an upper line ahead of a lower line that was accepted before it was issued
+		for i, a := range got {
+			if !a.upper {
+				continue
+			}
+			for _, b := range got[i+1:] {
+				if !b.upper && b.idx < a.idx {
+					c.Fail("C12: stacked syncers: bytes written through the upper syncer overtook bytes its sink had accepted before", "%s: line #%d (through the upper syncer) lies before line #%d (written to the lower syncer earlier); device %q", when, a.idx, b.idx, clip(sink.Data))
+					return false
+				}
+			}
+		}
+		if all && len(seen) != len(order) {
+			c.Fail("C12-D: Sync or Stop reported success although accepted bytes are not in the sink or not synced", "%s (stacked syncers): %d of %d lines on the device; device %q", when, len(seen), len(order), clip(sink.Data))
+			return false
+		}
+		return true
+	}
+	r.Go("main", func() {
+		for i, op := range ops {
+			switch op.kind {
+			case 'U', 'L':
+				p := []byte(fmt.Sprintf("%c%03d%s\n", op.kind, i, strings.Repeat(string(rune('a'+i%26)), op.n)))
+				issued[string(p)] = line{i, op.kind == 'U'}
+				order = append(order, string(p))
+				ws := zapcore.WriteSyncer(lower)
+				if op.kind == 'U' {
+					ws = upper
+				}
+				if n, err := ws.Write(p); n != len(p) || err != nil {
+					c.Fail("C12: Write over a healthy sink did not return (len(p), nil)", "stacked syncers op %d %c: (%d, %v)", i, op.kind, n, err)
+					return
+				}
+				for j := range p {
+					p[j] = '#'
+				}
+				if !judge(fmt.Sprintf("after op %d (write)", i), false) {
+					return
+				}
+			case 'u':
+				if err := upper.Sync(); err != nil {
+					c.Fail("C12: Sync over a healthy sink returned an error", "stacked syncers op %d: %v", i, err)
+					return
+				}
+				if !judge(fmt.Sprintf("after op %d (Sync of the upper syncer)", i), true) {
+					return
+				}
+			case 'l':
+				if err := lower.Sync(); err != nil {
+					c.Fail("C12: Sync over a healthy sink returned an error", "stacked syncers op %d: %v", i, err)
+					return
+				}
+				if !judge(fmt.Sprintf("after op %d (Sync of the lower syncer)", i), false) {
+					return
+				}
+			}
+			zsim.Yield(zsim.KOp, nil)
+		}
+		if err := upper.Stop(); err != nil {
+			c.Fail("C12: Stop over a healthy sink returned an error", "stacked syncers, upper: %v", err)
+			return
+		}
+		if err := lower.Stop(); err != nil {
+			c.Fail("C12: Stop over a healthy sink returned an error", "stacked syncers, lower: %v", err)
+			return
+		}
+		judge("after both were stopped", true)
+	})
+	c.Sim()
+	if !r.Failed() && len(order) > 0 && sink.SyncedLen != len(sink.Data) {
+		c.Fail("C12-D: Sync or Stop reported success although accepted bytes are not in the sink or not synced", "stacked syncers: %d of %d device bytes synced after both were stopped", sink.SyncedLen, len(sink.Data))
+	}
 }
